@@ -62,20 +62,31 @@ func vMergeCfg(prefix, idBase string, nDocs int, second bool, focus string) gCfg
 
 func vMergeTwo(focus string) {
 	maxDocs := vParam("maxDocs", 1)
-	n0 := vChoice("n0", maxDocs+1)
-	n1 := vChoice("n1", maxDocs+1)
-	docs0, sp0 := vGenBatch(vMergeCfg("a", "a", n0, false, focus))
-	docs1, sp1 := vGenBatch(vMergeCfg("b", "b", n1, true, focus))
+	nIn := vParam("nInputs", 2)
+	prefixes := []string{"a", "b", "c"}
+	var segs []segment.Segment
+	var drops []*roaring.Bitmap
+	var specs []*sSpec
+	var bits [][]bool
 	r0 := vBool("reopen0")
-	r1 := r0
-	if vParam("tieReopen", 0) == 0 {
-		r1 = vBool("reopen1")
+	opened := 0
+	for i := 0; i < nIn; i++ {
+		n := vChoice(fmt.Sprint("n", i), maxDocs+1)
+		// the second input may carry an extra field, so that field lists differ
+		docs, sp := vGenBatch(vMergeCfg(prefixes[i], prefixes[i], n, i == 1, focus))
+		ri := r0
+		if i > 0 && vParam("tieReopen", 0) == 0 {
+			ri = vBool(fmt.Sprint("reopen", i))
+		}
+		sg := vBuildInput(docs, DefaultChunkMode, ri, vP(fmt.Sprint("in", i, ".zap")))
+		opened += vOpenCount(sg)
+		d, b := vDropBitmap(fmt.Sprint("drop", i, "_"), n)
+		segs = append(segs, sg)
+		drops = append(drops, d)
+		specs = append(specs, sp)
+		bits = append(bits, b)
 	}
-	s0 := vBuildInput(docs0, DefaultChunkMode, r0, vP("in0.zap"))
-	s1 := vBuildInput(docs1, DefaultChunkMode, r1, vP("in1.zap"))
-	d0, b0 := vDropBitmap("drop0_", n0)
-	d1, b1 := vDropBitmap("drop1_", n1)
-	want, wantNums := sMergeSpecs([]*sSpec{sp0, sp1}, [][]bool{b0, b1})
+	want, wantNums := sMergeSpecs(specs, bits)
 	if len(want.docs) == 0 {
 		if vSkipKnown("C05-nothing-survives") {
 			return
@@ -83,9 +94,9 @@ func vMergeTwo(focus string) {
 	}
 	var z ZapPlugin
 	path := vP("merged.zap")
-	nums, size, err := z.Merge([]segment.Segment{s0, s1}, []*roaring.Bitmap{d0, d1}, path, nil, nil)
+	nums, size, err := z.Merge(segs, drops, path, nil, nil)
 	vAssert(err == nil, "merge-err")
-	vAssert(len(nums) == 2, "nums-len")
+	vAssert(len(nums) == nIn, "nums-len")
 	for si := range nums {
 		vAssert(len(nums[si]) == len(wantNums[si]), fmt.Sprint("nums-len-", si))
 		for d := range nums[si] {
@@ -94,8 +105,8 @@ func vMergeTwo(focus string) {
 	}
 	file := vFSBytes(path)
 	vAssert(size == uint64(len(file)), "size")
-	vAssert(vFSOpenHandles() == vOpenCount(s0)+vOpenCount(s1), "merge-closed")
-	vAssert(s0 != nil && s1 != nil, "inputs-alive") // (keeps the opened inputs reachable until the handle count was taken)
+	vAssert(vFSOpenHandles() == opened, "merge-closed")
+	vAssert(len(segs) == nIn && segs[0] != nil, "inputs-alive") // (keeps the opened inputs reachable until the handle count was taken)
 	m, err := z.Open(path)
 	vAssert(err == nil, "open-merged")
 	sCheckStored(m, want, "m-")
